@@ -42,8 +42,8 @@ Pattern pattern(int id, int bs) {
     case 5: return {{{"+" + big2 + "|" + eq}, {"XYZ"}}};    // producer 0 hands its record over in two lockless appends ('+' marks it, '|' is the split point)
     case 6: return {{{"", eq, "", "Y", ""}}};             // one producer: zero-length appends before any buffer was fetched, right after a buffer
                                                           // was filled exactly (no current buffer, pool possibly exhausted) and as the last call
-    case 7: return {{{"+|" + big2, "+|", "+" + eq + "||cd|", "E"}, {"", "XY"}}};   // two producers: lockless parts of length 0 (first / both / middle and last of a
-                                                          // four-part record), a plain append right after a locked record, an empty append
+    case 7: return {{{"+|" + big2 + "||c|", "+|", "E"}, {"", "XY"}}};   // two producers: a five-part locked record with empty first, middle and last parts, a record
+                                                          // whose parts are all empty, a plain append right after a locked record, an empty append
     case 8: { Pattern p{{{"X", eq, "Y"}}}; p.reenter = true; return p; }   // like 1, and the sink callback itself appends "Z" once (a sink that records its own
                                                           // trouble); only for pools that cannot reach their limit (at the limit the producer legitimately waits
                                                           // for the back end while holding the append lock, so a back end that appends would wait for itself)
@@ -135,8 +135,8 @@ struct Session { int bs, mn, mx; Pattern pat; bool with_cb; };
 //   5  two sessions with DIFFERENT configurations: the first is pattern 0 (fills buffers, grows the pool, blocks at the limit) under
 //      (2,2,3) when the second has buff_size 1, else under (1,1,1); the second is pattern A under the command-line configuration
 //   6  like 5, the first session under (1,1,3) when the second has buff_size > 1, else (2,1,3)   (pool grows by two, larger<->smaller buffers)
-//   7  like 0 while a SECOND pipe with another buffer size ((2,1,2) or (1,1,2)), its own sink and its own producer ("mn") is alive: set up
-//      before, producing concurrently, cleaned up after the first; the oracle is applied to each pipe separately (nothing may cross over)
+//   7  like 0 while a SECOND pipe with another buffer size ((2,1,2) or (1,1,2)), its own sink and its own producer (the main thread, "m") is alive: set up
+//      before, fed concurrently, cleaned up after the first; the oracle is applied to each pipe separately (nothing may cross over)
 //   8  three sessions on one object: pattern 1 WITHOUT a callback (only: cleanup returns), then a session with no append at all
 //      (stop may arrive before the thread's first wait), then pattern A with the full oracle
 void scenario(int bs, int mn, int mx, int code) {
@@ -159,14 +159,14 @@ void scenario(int bs, int mn, int mx, int code) {
       if (r || (k + pass) % 2 == 0) pipe.cleanup();    // must return (a pipe that accepted the configuration is cleaned up like any other)
     }
   }
-  Pattern P2{{{"mn"}}}; const int bs2 = bs == 1 ? 2 : 1;
+  Pattern P2{{{"m"}}}; const int bs2 = bs == 1 ? 2 : 1;
   if (life == 7) { c2.p = new AsyncPipe; g_ctx[1] = &c2; set_up(c2, bs2, 1, 2, order, true); }
   for (size_t si = 0; si < sessions.size(); si++) { Session &S = sessions[si]; Pattern &P = S.pat;
     c1.out.clear(); c1.max_block = 0; c1.reenter = P.reenter; c1.z_issued = c1.z_mandatory = c1.cleanup_begun = false;
     set_up(c1, S.bs, S.mn, S.mx, order, S.with_cb);
     std::vector<std::thread> th;
     for (auto &lst : P.prod) th.emplace_back([&pipe, &lst] { produce(pipe, lst); });
-    if (life == 7) th.emplace_back([&c2, &P2] { produce(*c2.p, P2.prod[0]); });
+    if (life == 7) produce(*c2.p, P2.prod[0]);      // this thread feeds the second pipe while the producers feed the first
     for (auto &t : th) t.join();
     // everything appended before this point must have been delivered when cleanup (or the destructor) returns
     c1.cleanup_begun = true;
